@@ -154,3 +154,101 @@ func VerifC15_pad_counts_characters() {
 	}
 	verifReach("C15/pad/end")
 }
+
+// capitalize / toupper / tolower work on CHARACTERS: for strings of one or two characters,
+// capitalize changes at most the first character (the rest is kept byte for byte and the character
+// count is unchanged), ASCII letters are mapped exactly, and toupper/tolower keep the character
+// count and map ASCII exactly.
+//verif:opts unwind=300 maxpaths=400000
+func VerifC15_case_functions_count_characters() {
+	// first character: a symbolic ASCII byte, or one of three concrete multi-byte characters (case
+	// mapping of a SYMBOLIC non-ASCII rune walks Unicode tables the engine cannot index symbolically);
+	// then zero or one symbolic ASCII byte
+	head := []string{"", "\xc3\xa9", "\xd0\xb6", "\xe2\x82\xac"}[verifChoice("first_character", 4)]
+	if head == "" {
+		head = verifString("first", 1)
+		verifAssume(head[0] < 0x80)
+	}
+	tail := verifString("tail", verifChoice("tail_len", 2))
+	if len(tail) == 1 {
+		verifAssume(tail[0] < 0x80)
+	}
+	s := head + tail
+	st := c15Chars(s)
+	nchars := int64(len(st) - 1)
+	first := st[1] // byte length of the first character
+	in := mlrval.FromString(s)
+	valid := true
+	for c := 0; c+1 < len(st); c++ {
+		if st[c+1]-st[c] == 1 && s[st[c]] >= 0x80 {
+			valid = false
+		}
+	}
+	switch verifChoice("function", 3) {
+	case 0:
+		out := BIF_capitalize(in).String()
+		if s[0] >= 'a' && s[0] <= 'z' {
+			verifAssert(len(out) == len(s) && out[0] == s[0]-32 && out[1:] == s[1:], "C15/capitalize/ascii-first-letter-uppercased-rest-kept")
+		} else if s[0] < 0x80 {
+			verifAssert(out == s, "C15/capitalize/other-ascii-first-character-unchanged")
+		} else if valid {
+			// a multi-byte first character: whatever its upper case is, the rest is kept and the
+			// number of characters does not change
+			rest := s[first:]
+			verifAssert(len(out) >= len(rest) && out[len(out)-len(rest):] == rest, "C15/capitalize/rest-kept-byte-for-byte")
+			l := BIF_strlen(mlrval.FromString(out))
+			verifAssert(l.IsInt() && l.AcquireIntValue() == nchars, "C15/capitalize/character-count-unchanged")
+		}
+	case 1, 2:
+		var out string
+		if verifChoice("upper", 2) == 1 {
+			out = BIF_toupper(in).String()
+			for i := 0; i < len(s); i++ {
+				if s[i] < 0x80 && valid && len(out) == len(s) {
+					want := s[i]
+					if want >= 'a' && want <= 'z' {
+						want -= 32
+					}
+					verifAssert(out[i] == want, "C15/toupper/ascii-mapped-exactly")
+				}
+			}
+		} else {
+			out = BIF_tolower(in).String()
+			for i := 0; i < len(s); i++ {
+				if s[i] < 0x80 && valid && len(out) == len(s) {
+					want := s[i]
+					if want >= 'A' && want <= 'Z' {
+						want += 32
+					}
+					verifAssert(out[i] == want, "C15/tolower/ascii-mapped-exactly")
+				}
+			}
+		}
+		if valid {
+			l := BIF_strlen(mlrval.FromString(out))
+			verifAssert(l.IsInt() && l.AcquireIntValue() == nchars, "C15/case/character-count-unchanged")
+		}
+	}
+	verifReach("C15/case/end")
+}
+
+// the printf-format translation: C length modifiers (%lld, %llx, %ld, %lx, %lf, %le, %lg) mean what
+// the plain Go verbs mean, with flags, width and precision kept; x is a symbolic int in [-20, 20]
+func VerifC15_printf_translation() {
+	type pair struct{ user, plain string }
+	pairs := []pair{
+		{"%lld", "%d"}, {"%08lld", "%08d"}, {"%llx", "%x"}, {"%08llx", "%08x"}, {"%ld", "%d"}, {"%5ld", "%5d"},
+		{"%lx", "%x"}, {"%-4lx", "%-4x"}, {"%lf", "%f"}, {"%.3lf", "%.3f"}, {"%08.3lf", "%08.3f"}, {"%le", "%e"}, {"%.2le", "%.2e"}, {"%lg", "%g"},
+	}
+	p := pairs[verifChoice("format", len(pairs))]
+	x := verifInt64("x")
+	verifAssume(x >= -20 && x <= 20)
+	x = verifConcretize(x, 64) // the float verbs format float64(x): every value of the range, enumerated by the solver
+	a := BIF_fmtnum(mlrval.FromInt(x), mlrval.FromString(p.user))
+	b := BIF_fmtnum(mlrval.FromInt(x), mlrval.FromString(p.plain))
+	verifAssert(!a.IsError() && !b.IsError(), "C15/printf/formats-accepted")
+	verifAssert(a.String() == b.String(), "C15/printf/length-modifiers-mean-the-plain-verb")
+	c := BIF_fmtifnum(mlrval.FromString("abc"), mlrval.FromString(p.user))
+	verifAssert(c.String() == "abc", "C15/printf/fmtifnum-leaves-text-alone")
+	verifReach("C15/printf/end")
+}
